@@ -5,7 +5,7 @@
 Require Extraction.
 Require Import ExtrOcamlBasic.
 From Coq Require Import List NArith ZArith.
-From SDB Require Import Base.Bytes Base.Assoc Params Model.Codec Model.Lock Model.Page Model.Pool Model.SqlRef Model.Catalog Model.Query Model.Wal Model.LogCodec Model.WalTrace.
+From SDB Require Import Base.Bytes Base.Assoc Params Model.Codec Model.Lock Model.Page Model.Pool Model.SqlRef Model.Catalog Model.Query Model.Wal Model.LogCodec Model.WalTrace Model.Sched Model.ReqMgr Model.Engine.
 
 Extraction Blacklist List String Int.
 
@@ -34,4 +34,9 @@ Extraction "sdbmodel.ml"
   recover redo replay losers log_ok chains_ok strict_ok disk_ok no_loser_apply committed_val page_val get_page scope tracked image_wf fresh_pages_ok recover_outs out_ok
   (* M6b log codec, M6c write-ahead trace checker (C08) *)
   ser_rec parse_rec parse_all to_lrec wal_ok wal_violation wal_stats
+  (* M4s scheduling (C05), M8 request manager (C12) *)
+  sinit sstep srun
+  rinit rinit_real rstep rrun enabled deadlock_schedule potential
+  (* M4 row-level engine (C03 C07 C04) *)
+  einit estep erun eouts iget ilookup heap_rids icols
   N.of_nat N.to_nat Z.of_N Z.to_N Z.compare N.compare.
